@@ -28,8 +28,8 @@ theorem dedup_blocks_forever (k nx : Nat) (c : Cl) (e : Ev) (r : Rec)
     rw [ih]
     exact dedup_blocks 3 nx c e r h hs
 
--- `handledInner` / `handled` (when is an event "already handled", in terms of the client's own state) are defined in
--- Proofs/Client.lean so that Proofs/Insert.lean can speak about them
+-- `handledInner` / `handled` / `known` (when is an event "already handled", in terms of the client's own state) are defined in
+-- Model/Handled.lean (executable: the driver evaluates them) so that Proofs/Insert.lean can speak about them
 
 theorem step1_handled (retry : Cl → Option (Cl × Res)) (nx : Nat) (c : Cl) (e : Ev)
     (hs : Synced c.g) (hg : routes c e = true) (hh : handledInner c e = true) :
@@ -55,14 +55,26 @@ theorem step1_handled (retry : Cl → Option (Cl × Res)) (nx : Nat) (c : Cl) (e
       rw [notBetterResult_proj _ e hs']
       simp
     | leave =>
-      simp only [hk, Bool.and_eq_true, bne_iff_ne, ne_eq] at hh
-      obtain ⟨hne, hc⟩ := hh
-      have h2 : (e.sender == c.id) = false := by simpa using hne
-      have hc' : e.cipher ∈ c.g.consumed := by simpa using hc
+      simp only [hk] at hh
       simp only
       split
       · simp [failUnprocessable]
-      · simp [h2, hc', failUnprocessable]
+      · rcases (Bool.or_eq_true _ _).mp hh with h1 | h1
+        · simp only [Bool.and_eq_true, bne_iff_ne, ne_eq] at h1
+          have h2 : (e.sender == c.id) = false := by simpa using h1.1
+          have hc' : e.cipher ∈ c.g.consumed := by simpa using h1.2
+          simp [h2, hc', failUnprocessable]
+        · simp only [Bool.and_eq_true, beq_iff_eq] at h1
+          have he : (e.sender == c.id) = true := by simpa using h1.1
+          simp only [withSecret_id, he, if_true]
+          unfold ownMessage
+          simp only [withSecret_getRec]
+          cases hr : getRec c e.n with
+          | none => simp [hr] at h1
+          | some r =>
+            have h1s : r.state = 2 := by simpa [hr] using h1.2
+            simp only [h1s]
+            exact (returnOwnCommit_proj _ hs').trans (proj_withSecret c)
     | app mid mts tok =>
       simp only [hk] at hh
       simp only
@@ -91,21 +103,30 @@ theorem step1_handled (retry : Cl → Option (Cl × Res)) (nx : Nat) (c : Cl) (e
 theorem redeliver_frame (fuel nx : Nat) (c : Cl) (e : Ev) (hs : Synced c.g) (hh : handled c e = true) :
     proj (deliverN fuel nx c e).1 = proj c := by
   unfold handled at hh
+  have key : ∀ retry, (routes c e = false ∨ handledInner c e = true) → proj (step1 retry nx c e).1 = proj c := by
+    intro retry h
+    by_cases hg : routes c e = true
+    · rcases h with h | h
+      · rw [hg] at h; cases h
+      · exact step1_handled retry nx c e hs hg h
+    · have hg' : routes c e = false := by simpa using hg
+      unfold step1
+      simp [hg']
   cases hr : getRec c e.n with
   | some r =>
     by_cases hb : (r.state == 3 || r.state == 4) = true
     · have : r.state = 3 ∨ r.state = 4 := by simpa using hb
       rw [dedup_blocks fuel nx c e r hr this]
     · have hb' : (r.state == 3 || r.state == 4) = false := by simpa using hb
-      simp only [hr, hb', Bool.false_or, Bool.and_eq_true] at hh
+      simp only [hr, hb', Bool.false_or, Bool.or_eq_true, Bool.not_eq_true'] at hh
       cases fuel <;> simp only [deliverN, deliverOnce, hr, hb', Bool.false_eq_true, if_false]
-      · exact step1_handled _ nx c e hs hh.1 hh.2
-      · exact step1_handled _ nx c e hs hh.1 hh.2
+      · exact key _ hh
+      · exact key _ hh
   | none =>
-    simp only [hr, Bool.false_or, Bool.and_eq_true] at hh
+    simp only [hr, Bool.false_or, Bool.or_eq_true, Bool.not_eq_true'] at hh
     cases fuel <;> simp only [deliverN, deliverOnce, hr]
-    · exact step1_handled _ nx c e hs hh.1 hh.2
-    · exact step1_handled _ nx c e hs hh.1 hh.2
+    · exact key _ hh
+    · exact key _ hh
 
 /-- a commit is never better than itself: the snapshot taken when `e` was applied does not make `e`
     a better candidate, so the applied commit's own re-delivery can never trigger a rollback -/
@@ -258,6 +279,20 @@ example : okIns [] dC (demo2a ++ [.orig (.deliver dM2 0)]) = true ∧
     (runA [] dC demo2a).1.g.secrets = [(1, []), (2, [1])] ∧ (runB [] dC demo2a).1.g.secrets = [(1, []), (2, [1]), (3, [1, 6])] ∧
     (runB [] dC (demo2a ++ [.orig (.deliver dM2 0)])).1.g.secrets = (runA [] dC (demo2a ++ [.orig (.deliver dM2 0)])).1.g.secrets ∧
     (runA [] dC (demo2a ++ [.orig (.deliver dM2 0)])).2 = [.commit, .ev { dOwnC with path := [1], kind := .commit .selfUpdate [] }, .ok, .app 70] := by decide
+
+/-- the echo of the client's OWN proposal (`leave_group` records it ProcessedCommit; the echo answers `commit` through
+    `return_own_commit`), and an event that is no longer found under its `h` tag after the nostr group id was rotated
+    (`GroupNotFound`): both are `handled` and `known`, inserted twice each -/
+def dOwnL : Ev := { n := 9, ts := 50, idnum := 9, cipher := 9, sender := 2, path := [1], kind := .leave }
+def dRot : Ev := { n := 10, ts := 60, idnum := 10, cipher := 10, sender := 0, path := [1], kind := .commit (.setData { initData [0, 1] 1 with nid := 8 }) [] }
+def demo3 : List IOp :=
+  [.orig (.deliver dA 0), .orig (.leave 9 50 9), .orig (.deliver dOwnL 0), .ins dOwnL 0, .ins dOwnL 0,
+   .orig (.deliver dRot 0), .ins dA 0, .ins dA 0, .ins dOwnL 0, .orig (.deliver dOwnL 0)]
+example : okIns [] dC demo3 = true ∧
+    (runA [] dC demo3).2 = [.commit, .ev dOwnL, .commit, .commit] ∧ (runA [] dC demo3).1.g.recNid = 8 ∧
+    (hist (runA [] dC demo3).1 [.deliver dA 0]).2 = [.err eGroupNotFound] := by decide
+example : proj (runB [] dC demo3).1 = proj (runA [] dC demo3).1 :=
+  (redelivery_invisible_multi dC (iinv_init ..) demo3 (by decide)).1
 
 /-- the plain form: the stored message re-delivered three times after the race, then the rest of the run incl. a duplicate -/
 example : handled (hist dC [.deliver dA 0, .deliver dB 0, .deliver dM 0]).1 dM = true ∧
